@@ -178,7 +178,8 @@ func clipRings(box orb.Bound, rings []orb.Ring) (open []orb.LineString, closed [
 			continue // no vertices, nothing to clip
 		}
 		if !r.Closed() && (box.Contains(r[0]) || box.Contains(r[len(r)-1])) {
-			r = append(r, r[0])
+			// full slice expression: never write into the spare capacity of the caller's slice
+			r = append(r[:len(r):len(r)], r[0])
 		}
 		out := clip.LineString(box, orb.LineString(r), clip.OpenBound(true))
 		if len(out) == 0 {
